@@ -11,7 +11,8 @@ case = {
       FE = {'cache': cid|None, 'pkg': cid|None, 'url': cid|'W'|'O', 'fallback_url': cid|'W'|'O'}
   'faults': {label: 'os'|'other'}
 }
-content ids: source 1 (archive with build file) 2 (archive, no build file) 3 (garbage) 4 (other top directory);
+content ids: source 1 (archive with build file) 2 (archive, no build file) 3 (garbage) 4 (other top directory)
+             5 (archive whose extraction fails after the build file has been written);
              patch 11 (overlay with build file) 12 (overlay without) 13 (garbage)
 """
 from __future__ import annotations
@@ -32,13 +33,24 @@ URLS = {('source', False): 'http://dl.invalid/src.tgz', ('source', True): 'http:
         ('patch', False): 'http://dl.invalid/patch.tgz', ('patch', True): 'http://mirror.invalid/patch.tgz'}
 
 # abstract content attributes: id -> (unpackOk, createsDir, hasBuildfile)
-CONTENT = {1: (1, 1, 1), 2: (1, 1, 0), 3: (0, 0, 0), 4: (1, 0, 0), 11: (1, 1, 1), 12: (1, 1, 0), 13: (0, 0, 0)}
+CONTENT = {1: (1, 1, 1), 2: (1, 1, 0), 3: (0, 0, 0), 4: (1, 0, 0), 5: (0, 0, 0), 11: (1, 1, 1), 12: (1, 1, 0), 13: (0, 0, 0)}
 
 
 def _tar(files: T.Dict[str, bytes]) -> bytes:
     bio = io.BytesIO()
     with tarfile.open(fileobj=bio, mode='w:gz', format=tarfile.PAX_FORMAT) as tf:
         for name, data in sorted(files.items()):
+            ti = tarfile.TarInfo(name)
+            ti.size = len(data)
+            ti.mtime = 0
+            tf.addfile(ti, io.BytesIO(data))
+    return bio.getvalue()
+
+
+def _tar_seq(files: T.List[T.Tuple[str, bytes]]) -> bytes:
+    bio = io.BytesIO()
+    with tarfile.open(fileobj=bio, mode='w:gz', format=tarfile.PAX_FORMAT) as tf:
+        for name, data in files:
             ti = tarfile.TarInfo(name)
             ti.size = len(data)
             ti.mtime = 0
@@ -59,6 +71,9 @@ def content_bytes(cid: int, lead: bool) -> bytes:
         b = _tar({pre + 'foo.c': b'int foo(void) { return 1; }\n', pre + 'meson.build': b"project('foo', 'c', version: '1.0')\n"})
     elif cid == 2:
         b = _tar({pre + 'foo.c': b'int foo(void) { return 2; }\n'})
+    elif cid == 5:
+        # extraction writes the build file, then fails: `a` is a file and the next member wants it as a directory
+        b = _tar_seq([(pre + 'meson.build', b"project('foo', 'c', version: 'half')\n"), (pre + 'a', b'x\n'), (pre + 'a/b', b'y\n')])
     elif cid == 4:
         b = _tar({'unrelated-9/x.c': b'int x;\n'}) if not lead else b'\x00garbage-4'
     elif cid == 11:
@@ -398,6 +413,14 @@ def oracle(case: dict, root: str, obs: dict, obs2: T.Optional[dict]) -> T.List[T
             out.append(('failed-patch-dir-left', 'patch/diff step failed but the unpacked subproject directory is still there'))
         if obs2 is not None and obs2['outcome'] == 'ok' and obs2['patch_phase'] is None:
             out.append(('failed-patch-accepted-later', 'the next run accepted the directory left by a failed patch/diff step'))
+    elif obs['outcome'] != 'ok' and case['env']['dir'] is None and obs2 is not None:
+        # the run failed before the patch step (fetch / verify / unpack); whatever it left must not be taken for a
+        # prepared subproject by the next run
+        prepared = any(e[0] in ('used', 'cacheddir') for e in obs2['events'])
+        if obs2['outcome'] == 'ok' and obs2['patch_phase'] is None and not prepared:
+            out.append(('failed-unpack-accepted-later',
+                        'the run failed while acquiring/unpacking the source, and the next run accepted the half-prepared '
+                        'directory it left behind as the subproject'))
     return out
 
 
@@ -469,7 +492,7 @@ def run_case(case: dict, second_run: bool = True) -> T.Tuple[str, T.List[T.Tuple
         build_fixture(root, case)
         obs = run_resolver(root, case, case['faults'])
         obs2 = None
-        if second_run and obs['patch_phase'] == 'failed':
+        if second_run and (obs['patch_phase'] == 'failed' or (obs['outcome'] != 'ok' and case['env']['dir'] is None)):
             obs2 = run_resolver(root, case, {})
         return canon_obs(case, obs), oracle(case, root, obs, obs2)
     finally:
